@@ -108,6 +108,43 @@ def dissipative_job(job):
     return out
 
 
+def guess_job(job):
+    """Parameters estimated from the bath and the system (guess_tempo_parameters, used when no parameters are given) do not
+    depend on the basis: a rotated presentation must lead to the same time grid and memory."""
+    import oqupy
+    import warnings
+    d, kind, seed = job
+    r = probes.rng_for(seed, "c05-guess", d, kind)
+    v = probes.haar_unitary(d, seed, "guess", d) if kind == "haar" else probes.structured_unitary(d, "fourier")
+    h = np.diag(np.linspace(0.4, -0.4, d)).astype(complex)
+    low = np.eye(d, k=1, dtype=complex)                      # a lowering operator: not Hermitian, not normal
+    o = np.diag(np.linspace(1.0, -1.0, d)).astype(complex)
+    corr = oqupy.PowerLawSD(alpha=0.1, zeta=1.0, cutoff=2.0, cutoff_type="exponential", temperature=0.3)
+    out = []
+
+    def guess(rot, tds):
+        c = lambda m: rot @ m @ rot.conj().T
+        if tds:
+            system = oqupy.TimeDependentSystem(lambda t: c(h) * (1 + 0.1 * np.cos(t)), gammas=[lambda t: 2.5 + 0.5 * np.sin(t)],
+                                               lindblad_operators=[lambda t: c(low)])
+        else:
+            system = oqupy.System(c(h), gammas=[2.5], lindblad_operators=[c(low)])      # the dissipator limits the time step
+        with warnings.catch_warnings():
+            warnings.simplefilter("ignore")
+            p = oqupy.guess_tempo_parameters(oqupy.Bath(c(o), corr), 0.0, 2.0, system=system, tolerance=1e-2)
+        return p.dt, p.dkmax, p.epsrel
+    try:
+        for tds in (False, True):
+            a = guess(np.eye(d, dtype=complex), tds)
+            b = guess(v, tds)
+            if abs(a[0] - b[0]) > 1e-9 * a[0] or a[1] != b[1] or abs(a[2] - b[2]) > 1e-9 * a[2]:
+                out.append({"what": "estimated-parameters-depend-on-the-basis", "time_dependent": tds, "reference": list(a),
+                            "rotated": list(b)})
+    except Exception as ex:  # pylint: disable=broad-except
+        out.append({"what": "exception", "detail": "%s: %s" % (type(ex).__name__, str(ex)[:160])})
+    return out
+
+
 def run(ctx):
     quick = ctx.tier == "quick"
     space = "UNION {[1..d -> (-1)..2] : d \\in 2..3}" if quick else "UNION {[1..d -> (-1)..2] : d \\in 2..4}"
@@ -137,6 +174,8 @@ def run(ctx):
             jobs.append({"case": case, "variant": {"rot": rk, "unique": bool((idx + len(rk)) % 2)}, "seed": ctx.seed})
         if case["alg"] == "row" and len(case["sh"]) == 2 and case["sh"][0] == case["sh"][1]:
             jobs.append({"case": case, "variant": {"rot": "haar", "method": "mf"}, "seed": ctx.seed})
+        if case["alg"] == "col" and idx % 2 == 1:
+            jobs.append({"case": case, "variant": {"rot": "haar", "peek_raw": True}, "seed": ctx.seed})
         if case["alg"] == "col" and idx % 2 == 0:
             # PT-TEMPO writing its process tensor (with the basis transforms) to a file that is imported again
             jobs.append({"case": case, "variant": {"rot": "haar", "pt_roundtrip": ("simple", "file")[(idx // 2) % 2]},
@@ -154,6 +193,11 @@ def run(ctx):
         ctx.case({"check": "dissipative system in a complex basis (numerical)", "method": j[0], "d": j[1], "V": j[2]}, nontrivial=True)
         for x in mm:
             ctx.violation("C05:dissipative:%s:%s" % (j[0], x["what"]), "%s: %s" % (j[:3], x), {"dissipative": list(j)})
+    gjobs = [(d, k, ctx.seed) for d in (2, 3) for k in ("haar", "fourier")]
+    for j, mm in zip(gjobs, core.pmap(guess_job, gjobs)):
+        ctx.case({"check": "estimated parameters in a rotated basis", "d": j[0], "V": j[1]}, nontrivial=True)
+        for x in mm:
+            ctx.violation("C05:guess:%s" % x["what"], "%s: %s" % (j[:2], x), {"guess": list(j)})
     ctx.rule = ("(a) eigenvalue tuples over -1..2, d=2..3 (quick) / 2..5 (thorough) x V in {perm, fourier, real, haar}: "
                 "Bath contract; (b) Influence.tla behaviours x V replayed through Tempo / PtTempo+compute_dynamics / "
                 "MeanFieldTempo and rotated back; non-trivial (a) = repeated eigenvalue, (b) all")
@@ -171,6 +215,10 @@ def replay(ctx, rep):
         ctx.case(eng.case_id(c["case"], c["variant"]))
         for mm in res["mismatch"]:
             ctx.violation("C05:replay:" + mm["what"], str(mm), c)
+    elif "guess" in c:
+        ctx.case(c)
+        for x in guess_job(tuple(c["guess"])):
+            ctx.violation("C05:replay:" + x["what"], str(x), c)
     elif "dissipative" in c:
         ctx.case(c)
         for x in dissipative_job(tuple(c["dissipative"])):
